@@ -2,9 +2,19 @@ import numpy as np
 from vg.compat import v2 as vg
 
 
+def _crossing_point(p, d_p, q, d_q):
+    """
+    The point where the segment from `p` to `q` meets the plane, given the
+    signed distances `d_p` and `d_q` the two vertices were classified with.
+    They have strictly opposite signs, so `0 <= t <= 1` and the result is
+    finite even when one of the vertices is within rounding error of the plane.
+    """
+    t = d_p / (d_p - d_q)
+    return p + t * (q - p)
+
+
 def slice_open_polyline_by_plane(vertices, plane):
     from .. import Plane
-    from ..plane import intersect_segment_with_plane
 
     num_v = vg.shape.check(locals(), "vertices", (-1, 3))
     if num_v == 0:
@@ -17,6 +27,7 @@ def slice_open_polyline_by_plane(vertices, plane):
 
     (transition_points,) = (signs_of_vertices[:-1] != signs_of_vertices[1:]).nonzero()
     components = np.vsplit(vertices, transition_points + 1)
+    component_distances = np.split(signed_distances, transition_points + 1)
     component_signs = signs_of_vertices[np.concatenate([[0], transition_points + 1])]
 
     (components_in_front,) = (component_signs == 1).nonzero()
@@ -36,11 +47,11 @@ def slice_open_polyline_by_plane(vertices, plane):
         if sign_of_adjacent_vertex == 0:
             prepend = adjacent_vertex
         else:
-            prepend = intersect_segment_with_plane(
-                start_points=adjacent_vertex,
-                segment_vectors=verts_in_front[0] - adjacent_vertex,
-                points_on_plane=plane.reference_point,
-                plane_normals=plane.normal,
+            prepend = _crossing_point(
+                adjacent_vertex,
+                component_distances[component_in_front - 1][-1],
+                verts_in_front[0],
+                component_distances[component_in_front][0],
             )
     else:
         prepend = np.zeros((0, 3))
@@ -53,11 +64,11 @@ def slice_open_polyline_by_plane(vertices, plane):
             append = adjacent_vertex
         else:
             last_vert = verts_in_front[-1]
-            append = intersect_segment_with_plane(
-                start_points=last_vert,
-                segment_vectors=adjacent_vertex - last_vert,
-                points_on_plane=plane.reference_point,
-                plane_normals=plane.normal,
+            append = _crossing_point(
+                last_vert,
+                component_distances[component_in_front][-1],
+                adjacent_vertex,
+                component_distances[component_in_front + 1][0],
             )
     else:
         append = np.zeros((0, 3))
